@@ -315,7 +315,7 @@ def build(ctx):
                             [] if not fb["reproduced"] else [{"input": fb["native_inputs"], "observed": fb["observed"], "clause": "no atom within the radius is missing", "key": "extent-fallback"}])
             return
         E, Fo = orig
-        (hmin, kmin, lmin), (hmax, kmax, lmax) = bounds
+        (hmin, kmin, lmin), (hmax, kmax, lmax) = [(b_.flat() if isinstance(b_, NDArr) else b_) for b_ in bounds]
         lo, hi = [hmin, kmin, lmin], [hmax, kmax, lmax]
         pc = list(I.pc)
         sqrt_axioms = [h for h in pc if "py_sqrt" in str(h)]
@@ -381,7 +381,7 @@ def build(ctx):
         if not reached or found_E is None or bounds is None:
             ctx.notes.append(f"C03 {label}: extent local / slab call not recognised; decided by the brute-force stand-in")
             return
-        (hmin, kmin, lmin), (hmax, kmax, lmax) = bounds
+        (hmin, kmin, lmin), (hmax, kmax, lmax) = [(b_.flat() if isinstance(b_, NDArr) else b_) for b_ in bounds]
         lo, hi = [hmin, kmin, lmin], [hmax, kmax, lmax]
         for ci, fc in enumerate(centres):
             for i in range(3):
@@ -476,7 +476,9 @@ def slab_and_ball_instances(ctx, mod):
         t.pts = pts
         return t
 
-    def ball(I2, tree, centre, radius, *a, **k):
+    def ball(I2, tree, centre=None, radius=None, *a, **k):
+        centre = k.pop("x", centre)          # scipy's own parameter names, for keyword calls: query_ball_point(x=..., r=...)
+        radius = k.pop("r", radius)
         pts = tree.pts
         c = centre.flat() if isinstance(centre, NDArr) else list(centre)
         out = []
